@@ -402,7 +402,9 @@ Fixpoint pre_numkeys (tab : list string) (l : list (string * list Z)) (units : l
 Definition pre_sample (tab : list string) (s : sample) : res (list string * rsample) :=
   let '(tab, a) := pre_strkeys tab (s_label s) in
   '(tab, b) <- pre_numkeys tab (s_numlabel s) (s_numunit s) ;;
-  Ok (tab, {| rs_loc := s_loc s; rs_val := s_val s; rs_label := a ++ b |}).
+  (* s.locationIDX[i] = loc.ID dereferences the pointer: a nil location (dumped as id -1) panics *)
+  if existsb (Z.eqb (-1)) (s_loc s) then Panic 204
+  else Ok (tab, {| rs_loc := s_loc s; rs_val := s_val s; rs_label := a ++ b |}).
 
 Fixpoint pre_samples (tab : list string) (l : list sample) : res (list string * list rsample) :=
   match l with
@@ -507,7 +509,7 @@ Definition post_sample (tab : list string) (locids : list Z) (s : rsample) : res
                                             | u => pad_string_array u (List.length (odef [] (assoc (fst e) (g_num g))))
                                             end)) (g_unit g)
                end in
-  Ok {| s_loc := map (defined_id locids) (rs_loc s); s_val := rs_val s; s_label := g_label g;
+  Ok {| s_loc := map (fun id => if existsb (Z.eqb id) locids then id else -1) (rs_loc s); s_val := rs_val s; s_label := g_label g;
         s_numlabel := g_num g; s_numunit := units |}.
 
 Definition post_mapping (tab : list string) (m : rmapping) : res mapping :=
